@@ -41,6 +41,11 @@ def verify_ssh_stub(cx):
     data, alg, packet = cx.args
     r = cx.fresh('bool', 'prim_ok')
     rec = cx.st.rec(packet)
+    # the reader is handed over in a consistent state: this is the `requires` (PKT_INV) of the per key type verify_ssh
+    # contracts, whose ghost names ghost_done / ghost_rest are then definitional (_packet[:_idx], _packet[_idx:])
+    cx.require('reader-invariant-at-hand-over', z3.And(
+        rec.fields['_idx'].z >= 0, rec.fields['_idx'].z <= rec.fields['_len'].z,
+        rec.fields['_len'].z == z3.Length(rec.fields['_packet'].z)))
     ev = ('verify_ssh', (data, alg, VBytes(rec.fields['_packet'].z), VInt(rec.fields['_idx'].z), r))
     return [Out(ret=r, event=ev), Out(exc=VExc('PacketDecodeError'), event=ev)]
 
@@ -187,7 +192,9 @@ eckey_init = Spec(
     setup=class_algset_setup('_ECKey'),
     ensures=[('own-set-equals-own-sig-algorithms', own_set_post(
         lambda c: [z3.Concat(bytes_const(b'ecdsa-sha2-'), c.old('curve_id', c.argv('key')))])),
-             ],
+             ('hash-is-the-one-RFC5656-prescribes-for-the-curve', lambda c: z3.And([
+                 z3.Implies(c.old('curve_id', c.argv('key')) == bytes_const(k),
+                            c.new('_hash_alg') == z3.StringVal(v)) for k, v in EC_HASH.items()]))],
     always=[('shared-class-level-set-unchanged', shared_set_frame)],
     raises={'KeyError': True})       # curve without a registered OID
 
@@ -414,6 +421,10 @@ real_get_mpint = _real(
              ('a-whole-string-was-read', lambda c: (lambda x: z3.And(
                  z3.Extract(c.old('_packet'), c.old('_idx'), c.new('_idx') - c.old('_idx')) == S_(x),
                  z3.Length(x) < 2 ** 32))(
+                 z3.Extract(c.old('_packet'), c.old('_idx') + 4, c.new('_idx') - c.old('_idx') - 4))),
+             # the VALUE: the two's complement reading of exactly that string (sunbe is the engine's name for
+             # int.from_bytes(.., 'big', signed=True); its relation to MPInt / sbe is proved in C15)
+             ('value==signed-big-endian-of-the-string-read', lambda c: c.result == z3.Function('sunbe', BytesS, IntS)(
                  z3.Extract(c.old('_packet'), c.old('_idx') + 4, c.new('_idx') - c.old('_idx') - 4)))],
     raises={'PacketDecodeError': True}, returns='int')
 
@@ -470,15 +481,25 @@ def decode_ssh_public_stub(cx):
     p = cx.args[0]
     f = pkt_fields(cx.st, p)
     K, rest1 = cx.fresh('bytes', 'keyfields'), cx.fresh('bytes', 'rest_after_key')
-    ok = Out(ret=cx.fresh('opaque:KeyParams', 'key_params'),
+    params = cx.fresh('opaque:KeyParams', 'key_params')
+    ok = Out(ret=params,
              osets=[(p, '_idx', VInt(f['_idx'] + z3.Length(K.z))),
                     (p, 'ghost_done', VBytes(z3.Concat(f['ghost_done'], K.z))), (p, 'ghost_rest', rest1)],
-             assume=[f['ghost_rest'] == z3.Concat(K.z, rest1.z)], event=('decode_ssh_public', (K,)))
+             assume=[f['ghost_rest'] == z3.Concat(K.z, rest1.z)], event=('decode_ssh_public', (K, params)))
     ok.native_osets = True
     return [ok, Out(exc=VExc('PacketDecodeError')), Out(exc=VExc('KeyImportError'))]
 
 
 decode_ssh_public_stub.modifies = ()
+
+
+def make_public_stub(cx):
+    """key_handler.make_public(key_params): the key object for exactly these parameters (or ValueError)"""
+    k = cx.fresh('obj:SSHKey', 'subject_key')
+    return [Out(ret=k, event=('make_public', (cx.args[0], k))), Out(exc=VExc('ValueError'))]
+
+
+make_public_stub.modifies = ()
 
 
 def ca_decode_stub(cx):
@@ -512,7 +533,7 @@ def decode_options_stub(cx):
     d = cx.fresh('obj:OptionsDict', 'opts')
     ev = ('decode_options', tuple(cx.args) + (d,))
     return [Out(ret=d, event=ev), Out(exc=VExc('KeyImportError'), event=ev),
-            Out(exc=VExc('PacketDecodeError'), event=ev)]
+            Out(exc=VExc('PacketDecodeError'), event=ev), Out(exc=VExc('UnicodeDecodeError'), event=ev)]
 
 
 decode_options_stub.modifies = ()
@@ -565,6 +586,7 @@ def cert_layout(c):
                     S_(opts), S_(exts), S_(reserved), S_(ca))
     o0, o1 = [e[1] for e in c.events('decode_options')]
     cas = c.events('ca_decode')
+    mp = c.events('make_public')
     princ = c.ex.deref(st, st.rec(res).fields['principals'])
     return z3.And(
         W == z3.Concat(tbs, S_(sig)),
@@ -572,6 +594,12 @@ def cert_layout(c):
         cav[0][1][1].z == tbs, cav[0][1][2].z == sig, cav[0][1][3].z,
         z3.BoolVal(len(cas) == 1 and cas[0][1][1].addr == cav[0][1][0].addr), cas[0][1][0].z == ca,
         c.eq(st.rec(res).fields['signing_key'], cav[0][1][0]),
+        # the CERTIFIED key is the one made from the parameters parsed out of the certificate's key fields K
+        # (never the CA key or anything else), the signing key the one decoded from the signature-key field
+        z3.BoolVal(len(mp) == 1 and isinstance(st.rec(res).fields.get('key'), VRef)
+                   and st.rec(res).fields['key'].addr == mp[0][1][1].addr
+                   and mp[0][1][1].addr != cav[0][1][0].addr),
+        mp[0][1][0].z == c.events('decode_ssh_public')[0][1][1].z if mp else z3.BoolVal(False),
         # fields of the object are the signed ones
         g('public_data') == W, g('_key_id') == utf8dec(key_id), princ.z == plist(pr),
         o0[0].z == opts, o1[0].z == exts, c.eq(st.rec(res).fields['options'], o0[3]),
@@ -620,7 +648,7 @@ cert_construct = Spec(
         'KeyHandler.decode_ssh_public': decode_ssh_public_stub,
         'decode_ssh_public_key': ca_decode_stub,
         'SSHKey.verify': ca_verify_stub,
-        'KeyHandler.make_public': may_raise(ret('obj:SSHKey', 'subject_key'), 'ValueError'),
+        'KeyHandler.make_public': make_public_stub,
         'cls._decode_options': decode_options_stub,
         'OptionsDict.update': noop('options_merge'),
         'self.set_comment': noop()}),
@@ -930,8 +958,13 @@ ASSUMPTIONS += [
     'SSHAllowedSigners.validate / load (abstract entries); construct / _decode_options / validate / load paths lie '
     'behind loop cuts and are skipped by the cross-check as well',
     'crypto back-end key.verify(...) / der_encode are abstract (a verdict / some bytes)',
+    'accepted deviation from "fails if the algorithm name differs in any way": RSA names that are aliases of the same '
+    'hash (rsa-sha2-256 / ssh-rsa-sha256@ssh.com / rsa2048-sha256; rsa-sha2-512 / ssh-rsa-sha512@ssh.com) select the '
+    'same RSASSA-PKCS1-v1_5 primitive, so relabelling among them verifies; what is proved is: a different name is '
+    'either rejected, or selects a different hash / key type, or is such an alias',
 ]
 HASHES = {b'sha256': 32, b'sha512': 64}
+HASH_FIELDS = {'digest_size': 'int', 'ghost_digest': 'bytes', 'ghost_name': 'bytes', 'ghost_fed': 'bytes'}
 CERT_TYPE_USER, CERT_TYPE_HOST = 1, 2                   # PROTOCOL.certkeys: SSH2_CERT_TYPE_USER / _HOST
 hashfn = z3.Function('H', BytesS, BytesS, BytesS)        # H(algorithm name, message)
 utf8enc = z3.Function('utf8', StrS, BytesS)              # the engine's name for String(str)
@@ -943,7 +976,8 @@ def hash_ctor_stub(cx):
     name = tag.split(':', 1)[1].encode()
     data = cx.args[0].z if cx.args else z3.Empty(BytesS)
     dg = hashfn(bytes_const(name), data)
-    h = new_record(cx.st, 'Hash', digest_size=VInt(HASHES[name]), ghost_digest=VBytes(dg))
+    h = new_record(cx.st, 'Hash', digest_size=VInt(HASHES[name]), ghost_digest=VBytes(dg),
+                   ghost_name=VBytes(bytes_const(name)), ghost_fed=VBytes(data))
     return [Out(ret=h, assume=[z3.Length(dg) == HASHES[name]])]
 
 
@@ -955,6 +989,59 @@ def hash_digest_stub(cx):
 
 
 hash_digest_stub.modifies = ()
+
+
+def hash_update_stub(cx):
+    """h.update(chunk): the digest is that of everything fed so far"""
+    f = cx.st.rec(cx.recv).fields
+    fed = z3.Concat(f['ghost_fed'].z, cx.args[0].z)
+    dg = hashfn(f['ghost_name'].z, fed)
+    return [Out(sets={'ghost_fed': VBytes(fed), 'ghost_digest': VBytes(dg)},
+                assume=[z3.Length(dg) == f['digest_size'].z])]
+
+
+hash_update_stub.modifies = ('ghost_fed', 'ghost_digest')
+
+# ---- the file-path form: the message is the CONTENT of the file, all of it
+file_content = z3.Function('file_content', StrS, BytesS)
+
+
+def open_file_stub(cx):
+    return new_record(cx.st, 'FileCM', ghost_path=cx.args[0])
+
+
+def with_open_stub(cx):
+    """with open_file(path, 'rb') as f: a reader positioned at the start of the file's content (or OSError)"""
+    cm = cx.args[0]
+    path = cx.st.rec(cm).fields['ghost_path']
+    f = new_record(cx.st, 'File', ghost_left=VBytes(file_content(path.z)))
+    return [Out(ret=f, event=('opened', (path,))), Out(exc=VExc('OSError'))]
+
+
+def file_read_stub(cx):
+    """f.read(n): the next chunk, at most n bytes, empty exactly at end of file"""
+    left = cx.st.rec(cx.recv).fields['ghost_left'].z
+    c, rest = cx.fresh('bytes', 'chunk'), cx.fresh('bytes', 'left')
+    n = cx.args[0].z
+    return [Out(ret=c, sets={'ghost_left': rest},
+                assume=[left == z3.Concat(c.z, rest.z), z3.Length(c.z) <= n,
+                        (z3.Length(c.z) == 0) == (z3.Length(left) == 0)])]
+
+
+open_file_stub.modifies = ()
+with_open_stub.modifies = ()
+file_read_stub.modifies = ('ghost_left',)
+
+
+def file_hash_inv(c):
+    """what has been fed to the hash, followed by what is still unread, is the content of the file"""
+    st = c.new_state
+    h, f = st.rec(c.localv('h')).fields, st.rec(c.localv('f')).fields
+    h0 = c.loop_entry.rec(c.loop_entry.env['h']).fields
+    return z3.And(file_content(c.arg('data')) == z3.Concat(h['ghost_fed'].z, f['ghost_left'].z),
+                  h['ghost_name'].z == h0['ghost_name'].z, h['digest_size'].z == h0['digest_size'].z,
+                  h['ghost_digest'].z == hashfn(h['ghost_name'].z, h['ghost_fed'].z),
+                  z3.Length(h['ghost_digest'].z) == h['digest_size'].z)
 
 
 def sshsig_blob(ns, hash_name, digest):
@@ -977,7 +1064,7 @@ def _signed_data_ok(c):
 signed_data = Spec(
     PROP, 'sshsig', '_signed_data',
     params=dict(data='bytes', is_hashed='bool', hash_name='bytes', namespace='str'),
-    classes={'Hash': {'digest_size': 'int', 'ghost_digest': 'bytes'}},
+    classes={'Hash': HASH_FIELDS},
     globals={'_hashes': VDict({k: VTag('hash:' + k.decode()) for k in HASHES}),
              'PurePath': VTag('class:PurePath')},
     stubs={'hash_alg': hash_ctor_stub, 'Hash.digest': hash_digest_stub},
@@ -985,6 +1072,29 @@ signed_data = Spec(
         c.arg('namespace'), c.arg('hash_name'), _digest_of(c))),
              ('only-for-supported-hash-nonempty-namespace-right-digest-size', _signed_data_ok)],
     raises={'ValueError': lambda c: z3.Not(_signed_data_ok(c))}, returns='bytes')
+
+
+def _file_ok(c):
+    hn = c.arg('hash_name')
+    return z3.And(z3.Or([hn == bytes_const(k) for k in HASHES]), z3.Length(c.arg('namespace')) > 0)
+
+
+signed_data_file = Spec(
+    PROP, 'sshsig', '_signed_data',
+    params=dict(data='str', is_hashed='bool', hash_name='bytes', namespace='str'),
+    classes={'Hash': HASH_FIELDS, 'FileCM': {'ghost_path': 'str'}, 'File': {'ghost_left': 'bytes'}},
+    globals={'_hashes': VDict({k: VTag('hash:' + k.decode()) for k in HASHES}),
+             'PurePath': VTag('class:PurePath')},
+    stubs={'hash_alg': hash_ctor_stub, 'Hash.digest': hash_digest_stub, 'Hash.update': hash_update_stub,
+           'open_file': open_file_stub, 'with open_file()': with_open_stub, 'File.read': file_read_stub},
+    local_types={'h': 'obj:Hash', 'f': 'obj:File', 'chunk': 'bytes'},
+    loops={1: LoopSpec(invariant=file_hash_inv)},
+    ensures=[('blob==PROTOCOL.sshsig-layout-over-the-WHOLE-file-content', lambda c: c.result == sshsig_blob(
+        c.arg('namespace'), c.arg('hash_name'), hashfn(c.arg('hash_name'), file_content(c.arg('data'))))),
+             ('only-for-supported-hash-and-nonempty-namespace', _file_ok)],
+    raises={'ValueError': lambda c: z3.Not(_file_ok(c)), 'OSError': True}, returns='bytes')
+signed_data_file.loops[1].havoc_locals = ['f', 'h']
+signed_data_file.no_replay = True          # file access is abstract
 
 
 # ---- validate_sshsig
@@ -1133,12 +1243,45 @@ validate_sshsig_raw = _mk_validate_sshsig(False)
 validate_sshsig_armoured = _mk_validate_sshsig(True)
 
 
+# ---- allowed_signers line options: each option's value is stored under ITS OWN name, nothing else changes
+# (which handler serves which option name: data check allowed-signers-option-handlers; the option syntax itself is
+# OptionsParser, verified in C17)
+def _mk_entry_setter(name, vt, maker_key, maker_ret):
+    def maker(cx):
+        r = cx.fresh(maker_ret, 'parsed')
+        return [Out(ret=r, event=('parsed', (cx.args[0], r))), Out(exc=VExc('ValueError'))]
+    maker.modifies = ()
+
+    def post(c):
+        evs = c.events('parsed')
+        if len(evs) != 1:
+            return z3.BoolVal(False)
+        text, val = evs[0][1]
+        o0, o1 = c.oldv('options'), c.newv('options')
+        k = c.arg('option')
+        return z3.And(text.z == c.arg('value'), o1.dom == z3.Store(o0.dom, k, True),
+                      o1.val == z3.Store(o0.val, k, val.z))
+    return Spec(PROP, 'sshsig', 'SSHAllowedSignersEntry.' + name, self_class='SSHAllowedSignersEntry',
+                params=dict(option='str', value='str'),
+                classes={'SSHAllowedSignersEntry': {'options': 'dict[str,%s]' % vt}},
+                stubs={maker_key: maker},
+                ensures=[('value-of-this-line-option-stored-under-its-own-name-only', post)],
+                raises={'ValueError': lambda c: z3.And(c.newv('options').dom == c.oldv('options').dom,
+                                                       c.newv('options').val == c.oldv('options').val)})
+
+
+entry_set_time = _mk_entry_setter('_set_time', 'int', 'parse_time', 'int')
+entry_set_pattern = _mk_entry_setter('_set_pattern', 'opaque:Pattern', 'WildcardPatternList', 'opaque:Pattern')
+entry_set_time.no_replay = entry_set_pattern.no_replay = True     # options is a symbolic map of the entry
+
+
 # ---- SSHAllowedSigners.validate: "a signer the allowed-signers data authorises"
 # plain lines authorise their key itself, cert-authority lines authorise a CA (asked for with ca=True); an entry
 # authorises only if BOTH its key is the one asked about AND its options match (principal, namespace, now).
 ASSUMPTIONS += [
     'within one SSHAllowedSigners.validate call, entry.match_options(principal, namespace) is a function of the entry '
-    '(the clock does not cross a validity boundary between two loop iterations); key equality is abstract',
+    '(the clock does not cross a validity boundary between two loop iterations); there key equality is an abstract '
+    'relation - the __eq__ methods of the six key classes are under contract separately',
 ]
 ENTRY_SEQ = 'seq[opaque:Entry]'
 entry_key = z3.Function('attr_Entry_key', opaque_sort('Entry'), opaque_sort('Key'))     # engine name for entry.key
@@ -1449,14 +1592,17 @@ def _single_string_post(hash_of=None):
     return post
 
 
-# RFC 8332 / RFC 4253 / RFC 6187: hash selected by the algorithm NAME (a relabelled signature is checked with the
-# hash of the new label, i.e. by a different primitive)
+# RFC 8332 / RFC 4253 / RFC 6187: the hash is selected by the algorithm NAME.  A relabelled signature is therefore
+# checked with the hash of the new label: it fails if the new name stands for a different hash (or key type), but
+# names that are ALIASES of the same hash (rsa-sha2-256 / ssh-rsa-sha256@ssh.com / rsa2048-sha256, rsa-sha2-512 /
+# ssh-rsa-sha512@ssh.com) select the same primitive and the relabelled blob still verifies - by design of those
+# aliases, see ASSUMPTIONS and the data check rsa-names-of-one-hash-are-the-only-aliases.
 RSA_HASH = {b'rsa-sha2-256': 'sha256', b'rsa-sha2-512': 'sha512', b'ssh-rsa': 'sha1', b'rsa2048-sha256': 'sha256'}
 
 
 def _rsa_hash(c, h):
     a = c.arg('sig_algorithm')
-    return z3.And([z3.Implies(a == bytes_const(k), h.z == z3.StringVal(v)) for k, v in RSA_HASH.items()])
+    return z3.And([z3.Implies(a == bytes_const(k), h.z == z3.StringVal(v)) for k, v in RSA_HASH_ALL.items()])
 
 
 def _rsa_known(c):
@@ -1614,6 +1760,151 @@ skec_verify_ssh.no_replay = True
 sked_verify_ssh = _mk_sk('sk_eddsa', '_SKEd25519Key', False)
 
 
+# ------------------------------------------------------------------ per key type sign_ssh: emits what verify_ssh parses
+# "a signature made with any key and algorithm verifies under the matching public key": sign_ssh(data, alg) is the
+# key type's encoding of the back end's signature over (data, hash of alg), field for field the blob the verify_ssh
+# contract above demands (String(sig) for RSA / EdDSA; String(mpint r || mpint s) for ECDSA, r first; String(r || s)
+# as two 160-bit integers for DSA).  With sunbe(sbe(n, v)) == v / unbe(be(20, v)) == v and the unique-parse lemma,
+# verify_ssh then hands the back end the same (data, signature, hash).
+ASSUMPTIONS += [
+    'MPInt(v) == uint32 n || sbe(n, v) (n-byte two\'s complement): the contract of packet.MPInt proved in C15 '
+    '(contracts/c15.py enc_mpint, for values whose encoding fits in memory); der_decode / crypto key.sign are abstract',
+]
+sbe_fn = z3.Function('sbe', IntS, IntS, BytesS)
+sunbe_fn = z3.Function('sunbe', BytesS, IntS)
+
+
+def mpint_enc_stub(cx):
+    """MPInt(v): clauses of C15's proved contract that the round trip needs"""
+    from pyvc.builtins_model import be_term
+    v = cx.args[0]
+    L = cx.fresh('int', 'mpint_len')
+    body = sbe_fn(L.z, v.z)
+    t = z3.Concat(be_term(cx.st, 4, L.z), body)
+    return [Out(ret=VBytes(t), assume=[L.z >= 0, L.z < 2 ** 32, z3.Length(body) == L.z, sunbe_fn(body) == v.z],
+                event=('mpint', (v, VBytes(body))))]
+
+
+mpint_enc_stub.modifies = ()
+mpint_enc_stub.spec_getter = lambda: __import__('contracts.c15', fromlist=['enc_mpint']).enc_mpint
+
+
+def crypto_sign_stub(cx):
+    r = cx.fresh('bytes', 'raw_sig')
+    return [Out(ret=r, event=('crypto_sign', tuple(cx.args) + (r,)))]
+
+
+def der_decode_stub(cx):
+    r, s_ = cx.fresh('int', 'r'), cx.fresh('int', 's')
+    return [Out(ret=VTuple([r, s_]), event=('der_decode', (cx.args[0], r, s_)))]
+
+
+crypto_sign_stub.modifies = ()
+der_decode_stub.modifies = ()
+
+
+def _mk_sign_ssh(module, cls, post, key_fields, fields=None, raises=None):
+    return Spec(
+        PROP, module, cls + '.sign_ssh', self_class=cls, params=dict(data='bytes', sig_algorithm='bytes'),
+        classes={cls: dict({'_key': 'obj:CryptoKey'}, **(fields or {})), 'CryptoKey': key_fields},
+        stubs={'CryptoKey.sign': crypto_sign_stub, 'der_decode': der_decode_stub, 'MPInt': mpint_enc_stub},
+        ensures=[('blob==key-type-encoding-of-the-back-end-signature-over-(data,hash)', post)],
+        raises=dict({'ValueError': True}, **(raises or {})), returns='bytes')
+
+
+def _signed_once(c, extra_args):
+    evs = c.events('crypto_sign')
+    if len(evs) != 1:
+        return None, z3.BoolVal(False)
+    ev = evs[0][1]
+    ok = [ev[0].z == c.arg('data')] + [f(ev) for f in extra_args]
+    return ev, z3.And(ok)
+
+
+def _rsa_sign_post(c):
+    ev, ok = _signed_once(c, [lambda ev: _rsa_hash(c, ev[1])])
+    return ok if ev is None else z3.And(ok, c.result == S_(ev[-1].z))
+
+
+def _ed_sign_post(c):
+    ev, ok = _signed_once(c, [])
+    return ok if ev is None else z3.And(ok, c.result == S_(ev[-1].z))
+
+
+def _ec_sign_post(c):
+    ev, ok = _signed_once(c, [lambda ev: c.eq(ev[1], c.oldv('_hash_alg'))])
+    dd, mp = c.events('der_decode'), c.events('mpint')
+    if ev is None or len(dd) != 1 or len(mp) != 2:
+        return z3.BoolVal(False)
+    _in, r, s_ = dd[0][1]
+    return z3.And(ok, _in.z == ev[-1].z, mp[0][1][0].z == r.z, mp[1][1][0].z == s_.z,       # r first, s second
+                  c.result == S_(z3.Concat(S_(mp[0][1][1].z), S_(mp[1][1][1].z))))
+
+
+def _dsa_sign_post(c):
+    ev, ok = _signed_once(c, [lambda ev: ev[1].z == z3.StringVal('sha1')])
+    dd = c.events('der_decode')
+    if ev is None or len(dd) != 1:
+        return z3.BoolVal(False)
+    _in, r, s_ = dd[0][1]
+    b20 = lambda v: be(z3.IntVal(20), v)
+    return z3.And(ok, _in.z == ev[-1].z, c.result == S_(z3.Concat(b20(r.z), b20(s_.z))))
+
+
+rsa_sign_ssh = _mk_sign_ssh('rsa', 'RSAKey', _rsa_sign_post, {'d': 'opt[int]'},
+                            raises={'KeyError': lambda c: z3.Not(_rsa_known(c))})
+ed_sign_ssh = _mk_sign_ssh('eddsa', '_EdKey', _ed_sign_post, {'private_value': 'opt[bytes]'})
+ec_sign_ssh = _mk_sign_ssh('ecdsa', '_ECKey', _ec_sign_post, {'private_value': 'opt[bytes]'},
+                           fields={'_hash_alg': 'str'})
+dsa_sign_ssh = _mk_sign_ssh('dsa', '_DSAKey', _dsa_sign_post, {'x': 'opt[int]'},
+                            raises={'OverflowError': True})       # r or s of 2**160 or more: not a DSA-1024 signature
+
+
+# ------------------------------------------------------------------ key equality ("fails if ... the key differs in any way")
+# `entry.key == key` decides who is an authorised signer, and certificate / known-key comparisons use it too.
+# Public parameters per key type: RSA (e, n) RFC 4253 6.6; DSA (p, q, g, y); ECDSA (curve, Q) RFC 5656 3.1;
+# EdDSA public value RFC 8709 4; security keys additionally the application string (PROTOCOL.u2f).
+def _mk_key_eq(module, cls, key_fields, public, own_fields=None, own_public=()):
+    """two Specs: against a key of the same class, and against an object of another class"""
+    own_fields = own_fields or {}
+
+    def fields(c, ref):
+        k = c.oldv('_key', ref)
+        return {**{n: c.oldv(n, k) for n in key_fields}, **{n: c.oldv(n, ref) for n in own_fields}}
+
+    def post(c):
+        a, b = fields(c, c.self_ref), fields(c, c.argv('other'))
+        eqs = {n: c.eq(a[n], b[n]) for n in a}
+        res = c.truthy(c.result_v)
+        return z3.And(z3.BoolVal(isinstance(c.result_v, VBool)),
+                      z3.Implies(res, z3.And([eqs[n] for n in tuple(public) + tuple(own_public)])),
+                      z3.Implies(z3.And(list(eqs.values())), res))
+    classes = {cls: dict({'_key': 'obj:CK'}, **own_fields), 'CK': key_fields, 'Foreign': {}}
+    same = Spec(PROP, module, cls + '.__eq__', self_class=cls, params=dict(other='obj:' + cls), classes=classes,
+                globals={'NotImplemented': VTag('NotImplemented')},
+                ensures=[('equal-only-if-all-public-parameters-equal(and-if-all-parameters-equal)', post)])
+    other = Spec(PROP, module, cls + '.__eq__', self_class=cls, params=dict(other='obj:Foreign'), classes=classes,
+                 globals={'NotImplemented': VTag('NotImplemented')},
+                 ensures=[('a-key-of-another-type-is-never-equal', lambda c: z3.BoolVal(
+                     (isinstance(c.result_v, VTag) and c.result_v.tag == 'NotImplemented')
+                     or (isinstance(c.result_v, VBool) and concrete_bool(c.result_v.z) is False)))])
+    same.no_replay = other.no_replay = True      # __eq__ on bare instances: nothing scripted, nothing to compare
+    return same, other
+
+
+rsa_eq = _mk_key_eq('rsa', 'RSAKey', {'n': 'int', 'e': 'int', 'd': 'opt[int]'}, ('n', 'e'))
+dsa_eq = _mk_key_eq('dsa', '_DSAKey', {'p': 'int', 'q': 'int', 'g': 'int', 'y': 'int', 'x': 'opt[int]'},
+                    ('p', 'q', 'g', 'y'))
+ec_eq = _mk_key_eq('ecdsa', '_ECKey', {'curve_id': 'bytes', 'x': 'int', 'y': 'int', 'd': 'opt[int]'},
+                   ('curve_id', 'x', 'y'))
+ed_eq = _mk_key_eq('eddsa', '_EdKey', {'public_value': 'bytes', 'private_value': 'opt[bytes]'}, ('public_value',))
+_SK_OWN = {'_application': 'str', '_flags': 'int', '_key_handle': 'opt[bytes]', '_reserved': 'bytes'}
+skec_eq = _mk_key_eq('sk_ecdsa', '_SKECDSAKey', {'curve_id': 'bytes', 'public_value': 'bytes'},
+                     ('curve_id', 'public_value'), _SK_OWN, ('_application',))
+sked_eq = _mk_key_eq('sk_eddsa', '_SKEd25519Key', {'public_value': 'bytes'}, ('public_value',), _SK_OWN,
+                     ('_application',))
+
+
 # ------------------------------------------------------------------ lemmas and data checks
 KEY_MODULES = ('public_key', 'rsa', 'dsa', 'ecdsa', 'eddsa', 'sk_ecdsa', 'sk_eddsa')
 # PROTOCOL.certkeys, "Critical options": all defined ones are for user certificates only
@@ -1746,6 +2037,80 @@ def _rsa_tables():
     return bad
 
 
+def _class_consts(module, cls):
+    """class-level constants of a key class, evaluated from the source text (tuples / bytes / set(...) only)"""
+    import ast
+    from pyvc import extract
+    mod = extract.get_module(module)
+    env = {}
+    for st_ in mod.classes[cls].body:
+        tgt = st_.targets[0] if isinstance(st_, ast.Assign) else getattr(st_, 'target', None)
+        if isinstance(tgt, ast.Name) and getattr(st_, 'value', None) is not None:
+            try:
+                env[tgt.id] = eval(compile(ast.Expression(st_.value), module, 'eval'),
+                                   {'__builtins__': {'set': set, 'tuple': tuple}}, dict(env))
+            except Exception:
+                pass
+    return env
+
+
+# which signature algorithm names a key of each class answers to: RFC 4253 6.6 (ssh-rsa, ssh-dss), RFC 8332 3
+# (rsa-sha2-*), RFC 6187 3.3 (rsa2048-sha256 / ssh-rsa under x509v3-), the ssh.com ssh-rsa-shaNNN@ssh.com names,
+# RFC 8709 (ssh-ed25519, ssh-ed448), PROTOCOL.u2f (sk-ssh-ed25519@openssh.com).  ECDSA classes: per instance (__init__).
+EXPECTED_ALGS = {
+    ('rsa', 'RSAKey'): {b'ssh-rsa', b'rsa-sha2-256', b'rsa-sha2-512', b'rsa2048-sha256', b'ssh-rsa-sha224@ssh.com',
+                        b'ssh-rsa-sha256@ssh.com', b'ssh-rsa-sha384@ssh.com', b'ssh-rsa-sha512@ssh.com'},
+    ('dsa', '_DSAKey'): {b'ssh-dss'},
+    ('eddsa', '_Ed25519Key'): {b'ssh-ed25519'},
+    ('eddsa', '_Ed448Key'): {b'ssh-ed448'},
+    ('sk_eddsa', '_SKEd25519Key'): {b'sk-ssh-ed25519@openssh.com'},
+}
+# every RSA name and the hash it stands for (same RSASSA-PKCS1-v1_5 primitive): names of one hash are ALIASES
+RSA_HASH_ALL = {**RSA_HASH, b'ssh-rsa-sha224@ssh.com': 'sha224', b'ssh-rsa-sha256@ssh.com': 'sha256',
+                b'ssh-rsa-sha384@ssh.com': 'sha384', b'ssh-rsa-sha512@ssh.com': 'sha512'}
+# RFC 5656 6.2.1: hash by curve size (b <= 256: SHA-256, 256 < b <= 384: SHA-384, b > 384: SHA-512)
+EC_HASH = {b'nistp256': 'sha256', b'nistp384': 'sha384', b'nistp521': 'sha512', b'1.3.132.0.10': 'sha256'}
+
+
+def _algset_contents():
+    """the accepted names of each key class are exactly the ones its RFC / PROTOCOL defines - a name of another key
+    type in the set would let a relabelled signature verify (the EdDSA / DSA back ends ignore the name)"""
+    bad = []
+    for (m, cls), want in EXPECTED_ALGS.items():
+        got = _class_consts(m, cls).get('all_sig_algorithms')
+        if got != want:
+            bad.append(f'{cls}.all_sig_algorithms = {sorted(got) if got is not None else None}, expected {sorted(want)}')
+    return bad
+
+
+def _rsa_alias_classes():
+    """rsa._hash_algs gives every accepted RSA name the hash of its definition; relabelling can only succeed between
+    names of the SAME hash (aliases)"""
+    from pyvc import extract
+    table = extract.get_module('rsa').lookup_const('_hash_algs')
+    return [f'{k!r} -> {table.get(k)!r}, defined as {v!r}' for k, v in RSA_HASH_ALL.items() if table.get(k) != v]
+
+
+def _ec_hash_table():
+    from pyvc import extract
+    table = extract.get_module('ecdsa').lookup_const('_hash_algs')
+    return [f'{k!r} -> {table.get(k)!r}, RFC 5656 says {v!r}' for k, v in EC_HASH.items() if table.get(k) != v] + \
+        [f'unexpected curve {k!r}' for k in table if k not in EC_HASH]
+
+
+def _entry_handlers():
+    """allowed_signers options: namespaces is a pattern list, valid-after / valid-before are times; nothing else"""
+    import ast
+    from pyvc import extract
+    cdef = extract.get_module('sshsig').classes['SSHAllowedSignersEntry']
+    want = {'namespaces': '_set_pattern', 'valid-after': '_set_time', 'valid-before': '_set_time'}
+    for st_ in cdef.body:
+        if isinstance(st_, ast.Assign) and isinstance(st_.targets[0], ast.Name) and st_.targets[0].id == '_handlers':
+            got = {k.value: getattr(v, 'id', None) for k, v in zip(st_.value.keys, st_.value.values)}
+            return [] if got == want else [f'_handlers = {got}, expected {want}']
+    return ['_handlers not found']
+
+
 def extra_checks(tier, seed):
     a, b, r, q, ns1, ns2, h1, h2, d1, d2 = [z3.Const(n, BytesS) for n in
                                             ('a', 'b', 'r', 'q', 'ns1', 'ns2', 'h1', 'h2', 'd1', 'd2')]
@@ -1762,7 +2127,11 @@ def extra_checks(tier, seed):
     ]
     for name, fn in (('C16.data#all_sig_algorithms-is-per-key-class-and-never-mutated-in-place', _algset_usage),
                      ('C16.data#critical-option-tables-match-PROTOCOL.certkeys', _critical_tables),
-                     ('C16.data#rsa-algorithm-names-select-the-RFC-hash', _rsa_tables)):
+                     ('C16.data#rsa-algorithm-names-select-the-RFC-hash', _rsa_tables),
+                     ('C16.data#accepted-algorithm-names-per-key-class-are-exactly-the-defined-ones', _algset_contents),
+                     ('C16.data#rsa-names-of-one-hash-are-the-only-aliases', _rsa_alias_classes),
+                     ('C16.data#ecdsa-hash-per-curve-RFC5656', _ec_hash_table),
+                     ('C16.data#allowed-signers-option-handlers', _entry_handlers)):
         bad = fn()
         lemmas.append({'name': name, 'verdict': 'refuted' if bad else 'proved', 'detail': bad,
                        'backend': 'data (AST)', 'replayed': True})
